@@ -59,12 +59,9 @@ impl ClassBody {
 
 impl Dependencies for ClassBody {
     fn supplies(&self) -> Vec<Dependency> {
-        let mut features_sup: Vec<Dependency> =
-            self.features.iter().flat_map(|x| x.supplies()).collect();
-
-        features_sup.append(&mut self.constructor.supplies());
-
-        features_sup
+        // the constructor's parameters are local to the constructor (its own net dependencies
+        // already exclude them): they do not satisfy a name used by a method
+        self.features.iter().flat_map(|x| x.supplies()).collect()
     }
 
     fn dependencies(&self) -> Vec<Dependency> {
